@@ -37,7 +37,7 @@ reg(Spec("C14", "c14_apbp.cpp", needs=("lib",),
               "and DSP-side MMIO accesses (REPLYi write/read-back, CMDi read, 0x0CC/0x0CE/0x0D0 writes, CIi bits of 0x0D4) through the "
               "host MMIO accessor, its 0x800 mirrors and the DSP data path, on one real Teakra instance re-initialised per case; "
               "after every op all observable APBP state is compared with a two-direction mailbox/semaphore model and the interrupt "
-              "rule is checked (ICU IRQ 14 / host handlers). DSP-side writes of arbitrary values to the two status registers are part of the histories (the flags are live views: no effect). The host's semaphore handler can be switched to re-enter the API (acknowledge all / mask all / acknowledge given bits); the model applies what the handler did after judging the interrupt rule on the state the operation itself produced. Non-trivial = history with >=1 send and >=1 semaphore op; distinct by op-list hash.",
+              "rule is checked (ICU IRQ 14 / host handlers). DSP-side writes of arbitrary values to the two status registers are part of the histories (the flags are live views: no effect). The host's semaphore handler can be switched to re-enter the API (acknowledge all / mask all / acknowledge given bits); the model applies what the handler did after judging the interrupt rule on the state the operation itself produced. c_binding (15% of the cases): the same generated history of host calls (send / receive / peek / flags / set / clear / mask / get semaphore, program / data / A32 accessors) and DSP-side register accesses drives a C++ facade instance and a C-binding context (teakra_c.cpp): every returned value, every handler invocation, the DSP-side registers and the ready flags agree after every operation. Non-trivial = history with >=1 send and >=1 semaphore op; distinct by op-list hash.",
          assumptions=["channel index < 3 (the API contract)", "0x0D8 bit 9 (S', documented as the CPU-side flag but wired to the DSP-side one) is not checked",
                       "the signal flag of the dsp->cpu direction has no register; it is checked through the interrupt rule only"]))
 
